@@ -36,13 +36,23 @@ type mySQLUndoDeleteExecutor struct {
 func newMySQLUndoDeleteExecutor(sqlUndoLog undo.SQLUndoLog) *mySQLUndoDeleteExecutor {
 	return &mySQLUndoDeleteExecutor{
 		sqlUndoLog:   sqlUndoLog,
-		baseExecutor: &BaseExecutor{sqlUndoLog: sqlUndoLog, undoImage: sqlUndoLog.AfterImage},
+		// the rows to look at are the deleted ones: their keys are in the before image
+		baseExecutor: &BaseExecutor{sqlUndoLog: sqlUndoLog, undoImage: sqlUndoLog.BeforeImage},
 	}
 }
 
 func (m *mySQLUndoDeleteExecutor) ExecuteOn(ctx context.Context, dbType types.DBType, conn *sql.Conn) error {
 	if m.sqlUndoLog.BeforeImage == nil || len(m.sqlUndoLog.BeforeImage.Rows) == 0 {
 		// the statement deleted no row: nothing to compensate
+		return nil
+	}
+
+	// the deleted keys must still be absent (or already hold the deleted rows again)
+	ok, err := m.baseExecutor.dataValidationAndGoOn(ctx, conn)
+	if err != nil {
+		return err
+	}
+	if !ok {
 		return nil
 	}
 
